@@ -40,9 +40,14 @@ HAND = [
              "parameters": {"e1": '%env("VERIF_SET")%', "e2": '%envInt("VERIF_NUM")%', "e3": 'x-%env("VERIF_A")%-%env("VERIF_B")%', "e4": '%env("VERIF_A")%',
                             "e5": '%env("VERIF_B")%', "e6": '%env("VERIF_UNSET_Q", "d")%', "e7": '%envInt("VERIF_UNSET_R", 5)%', "e8": '%e1%/%e4%/%e5%'},
              "services": {"se": {"constructor": "fx.NewA", "arguments": ["%e1%", "%e2%", "%e3%", '%env("VERIF_A")%'], "scope": "non_shared"},
-                          "sf": {"constructor": "fx.NewB", "arguments": ["%e8%", '%envInt("VERIF_NUM")%'], "scope": "contextual"}}},
-     "eff": {"se": "non_shared", "sf": "contextual"}, "made": {"se": "probe.test/fx.NewA", "sf": "probe.test/fx.NewB"},
-     "params": ["e1", "e2", "e3", "e4", "e5", "e6", "e7", "e8"], "fns": [], "getters": [], "tags": [], "param_weight": 0.6},
+                          "sf": {"constructor": "fx.NewB", "arguments": ["%e8%", '%envInt("VERIF_NUM")%'], "scope": "contextual"},
+                          # no scope, and a contextual service reached ONLY through a tag: contextual by derivation (C20-r7-m1
+                          # fixed the scope at generation time following @service edges alone)
+                          "ct": {"constructor": "fx.NewC", "scope": "contextual", "tags": ["t"]},
+                          "tg": {"constructor": "fx.NewD", "arguments": ["!tagged t"]}}},
+     "eff": {"se": "non_shared", "sf": "contextual", "ct": "contextual", "tg": "contextual"},
+     "made": {"se": "probe.test/fx.NewA", "sf": "probe.test/fx.NewB", "ct": "probe.test/fx.NewC", "tg": "probe.test/fx.NewD"},
+     "params": ["e1", "e2", "e3", "e4", "e5", "e6", "e7", "e8"], "fns": [], "getters": [], "tags": ["t"], "param_weight": 0.6},
     # services given by value (composite literals, evaluated at every construction), told apart by an injected field
     {"name": "values", "env": {},
      "doc": {"meta": {"imports": {"fx": "probe.test/fx"}},
